@@ -230,4 +230,13 @@ pub mod verif_hooks
 	{
 		super::export(declaration)
 	}
+
+	pub fn get_key_offset(
+		filename: &str,
+		keys: &[std::path::PathBuf],
+		path_of_includer: &std::path::Path,
+	) -> Option<usize>
+	{
+		super::get_key_offset(filename, keys, path_of_includer)
+	}
 }
